@@ -160,6 +160,7 @@ def project_servermux(beh, rng, ids=("A", "B"), sizes=None, name="", kinds=("cut
     attached = {}
     upf, downf = {}, {}
     cuts = 0
+    pending_gap, gapclasses = {}, set()
     gaps = [0]
     classes = set()
 
@@ -191,7 +192,13 @@ def project_servermux(beh, rng, ids=("A", "B"), sizes=None, name="", kinds=("cut
                         cj["fault"]["kind"] = "cutcli"
                         cj["fault"]["hold_ms"] = rng.choice([200, 600, 1500])
                 if main_live.get(p) is None:
-                    if s["carriers"] and not any(attached.get(j) for j, (r, rid, cj) in role.items() if rid == p):
+                    if p in pending_gap:
+                        # an explicit gap of the model (S_Gap): the real lengths beyond 30 s / 60 s are run by the
+                        # dedicated scenarios of lib/checks/c05.py; here every class becomes a short real gap
+                        c["delay_ms"] = rng.choice([40, 250, 1200])
+                        c["gap_class"] = pending_gap.pop(p)
+                        gaps[0] += 1
+                    elif s["carriers"] and not any(attached.get(j) for j, (r, rid, cj) in role.items() if rid == p):
                         # every earlier carrier of the session is detached at the server: a gap
                         # (shorter than the one-minute retention) before the next one arrives
                         c["delay_ms"] = rng.choice([40, 250, 1200])
@@ -241,6 +248,9 @@ def project_servermux(beh, rng, ids=("A", "B"), sizes=None, name="", kinds=("cut
                 cuts += 1
             else:
                 r[2]["hold_ms"] = rng.choice([5, 30, 80])
+        elif act == "S_Gap":
+            pending_gap[args[0]] = args[1]
+            gapclasses.add(args[1])
         elif act == "S_SetAddr":
             attached[args[0]] = True
         elif act in ("S_Detach",):
@@ -265,7 +275,7 @@ def project_servermux(beh, rng, ids=("A", "B"), sizes=None, name="", kinds=("cut
     sc = {"name": name, "seed": rng.getrandbits(48), "sessions": sessions, "extras": extras, "order": order}
     if len(sessions) >= 2:
         sc["id_shape"], sc["conv_equal"] = shape, conveq
-    info = {"shape": sc.get("id_shape"), "conveq": sc.get("conv_equal"), "cuts": cuts, "classes": classes, "carriers": len(order), "sessions": len(sessions), "extras": len(extras), "gaps": gaps[0]}
+    info = {"shape": sc.get("id_shape"), "conveq": sc.get("conv_equal"), "cuts": cuts, "classes": classes, "carriers": len(order), "sessions": len(sessions), "extras": len(extras), "gaps": gaps[0], "gapclasses": gapclasses}
     return sc, info
 
 
@@ -286,6 +296,7 @@ def project_tunnel(beh, rng, sessions=("A", "B"), sizes=None, name="", big=0.03)
     plan = {}                    # k -> carrier dict
     sess = {}
     pending_refuse = 0
+    pool_broken = set()
     waited = {}                  # session -> the pool was empty while it had no carrier
     faults = 0
     kinds = set()
@@ -308,6 +319,7 @@ def project_tunnel(beh, rng, sessions=("A", "B"), sizes=None, name="", big=0.03)
         return min(cap(s), rng.randint(3, 40))
 
     for act, args in beh:
+        act = "Cut" if act == "G_Cut" else act
         if act == "Collect":
             car[args[0]] = "pool"
         elif act == "AnswerLost":
@@ -324,6 +336,9 @@ def project_tunnel(beh, rng, sessions=("A", "B"), sizes=None, name="", big=0.03)
             if waited.pop(s, False):
                 c["delay_ms"] = rng.choice([30, 100, 300])
                 kinds.add("noproxy")
+            if k in pool_broken:
+                c["fault"] = {"kind": "cut", "dir": "up", "cls": "tok", "nth": rng.randint(0, 7)}
+                kinds.add("cut-before-token")
             session(s)["carriers"].append(c)
             plan[k], owner[k], car[k] = c, s, "popped"
         elif act == "WriteId":
@@ -335,7 +350,7 @@ def project_tunnel(beh, rng, sessions=("A", "B"), sizes=None, name="", big=0.03)
                     cj["fault"]["hold_ms"] = rng.choice([200, 600, 1500])
                     kinds.add("halfopen")
             car[k], cur[s], att[k] = "live", k, True
-        elif act == "WriteIdFails":
+        elif act in ("WriteIdFails", "WriteIdFailsMarked", "WriteIdFailsUnmarked", "PopSkip"):
             car[args[1]] = "dead"
         elif act == "StaleClose":
             s = args[0]
@@ -364,6 +379,10 @@ def project_tunnel(beh, rng, sessions=("A", "B"), sizes=None, name="", big=0.03)
             k = args[0]
             c = plan.get(k)
             if c is None:
+                if act == "Cut" and car.get(k) == "pool":
+                    # a reserve dies in the pool: the session that pops it later fails at the first write
+                    pool_broken.add(k)
+                    faults += 1
                 continue
             s = owner[k]
             faults += 1
@@ -655,7 +674,9 @@ def judge(chk, pid, rigbin, scenarios, results, specdir, module, trace_cfg="Trac
                               {"scenario": by_name[n], "state": res2.get("state")})
             else:
                 # no verdict from a wall-clock coincidence: exit 2, never exit 1
-                chk.fail("stall of %s not reproduced alone with doubled limits (load artefact?): no verdict" % n)
+                chk.fail("stall of %s not reproduced alone with doubled limits (load artefact?): no verdict; first run: %s; last events: %s" % (
+                    n, results[n].get("state"), [(e["ms"], e["ev"], e.get("k")) for e in results[n]["events"][-8:]]))
+                chk.cov.setdefault("unreproduced_stalls", []).append({"scenario": by_name[n], "state": results[n].get("state")})
                 bad2 = validate(chk, specdir, module, trace_cfg, [res2])
                 for res, kind, detail, local, ev in bad2:
                     chk.violation(signature(pid, res, kind, detail, local, ev), "trace of scenario %s: %s %s at event %s %s" % (res["name"], kind, detail, local, ev),
